@@ -141,3 +141,60 @@ def units():
                     u["restrict_fp"] = ["%s.function_pointer_call.1/%s" % (fn, ",".join(cands))]
                 U.append(u)
     return U
+
+
+# ---- conversion kernels of float32.c / double64.c: element rules (C02) ----------------------------------------
+def _kernel_units():
+    U = []
+    RTI = {"float": "__CPROVER_round_to_integralf", "double": "__CPROVER_round_to_integrald"}
+    K = []
+    for fname, F, pfx in (("float32.c", "float", "f"), ("double64.c", "double", "d")):
+        sc = "(scale * src [0])"
+        rnd = "%s (%s, __CPROVER_rounding_mode)" % (RTI[F], sc)
+        K += [
+            (fname, "%s2s_array" % pfx, "scd", F, "short", F + " scale", "scale == scale && src [0] == src [0]",
+             "(%s >= -32768.0 && %s <= 32767.0) ==> dest [0] == (short) (long) %s" % (sc, sc, rnd), "int read of a %s file: nearest integer to scale * x" % F),
+            (fname, "%s2s_clip_array" % pfx, "scd", F, "short", F + " scale", "scale == scale && src [0] == src [0]",
+             "dest [0] == (%s > 32767.0 ? 32767 : (%s < -32768.0 ? -32768 : (short) (long) %s))" % (sc, sc, rnd), "clipping read saturates at the short range"),
+            (fname, "%s2i_array" % pfx, "scd", F, "int", F + " scale", "scale == scale && src [0] == src [0]",
+             "(%s >= -2147483648.0 && %s <= 2147483520.0) ==> dest [0] == (int) (long) %s" % (sc, sc, rnd), "int read of a %s file: nearest integer to scale * x" % F),
+            (fname, "%s2i_clip_array" % pfx, "scd", F, "int", F + " scale", "scale == scale && src [0] == src [0]",
+             "dest [0] == ((double) %s > 2147483647.0 ? 2147483647 : ((double) %s < -2147483647.0 ? (-2147483647 - 1) : (int) (long) %s))" % (sc, sc, rnd),
+             "clipping read saturates at the int range and otherwise rounds the %s product itself" % F),
+        ]
+        K += [(fname, "s2%s_array" % pfx, "sdc", "short", F, F + " scale", "scale > -1e30 && scale < 1e30", "dest [0] == scale * src [0]", "short written to a %s file: scale * x" % F),
+              (fname, "i2%s_array" % pfx, "sdc", "int", F, F + " scale", "scale > -1e30 && scale < 1e30", "dest [0] == scale * src [0]", "int written to a %s file: scale * x" % F)]
+    K += [("float32.c", "f2d_array", "scd", "float", "double", "", "src [0] == src [0]", "dest [0] == (double) src [0]", "float to double is exact"),
+          ("float32.c", "d2f_array", "sdc", "double", "float", "", "src [0] == src [0]", "dest [0] == (float) src [0]", "double to float rounds once"),
+          ("double64.c", "d2f_array", "scd", "double", "float", "", "src [0] == src [0]", "dest [0] == (float) src [0]", "double to float rounds once"),
+          ("double64.c", "f2d_array", "sdc", "float", "double", "", "src [0] == src [0]", "dest [0] == (double) src [0]", "float to double is exact")]
+    for fname, fn, order, st, dt, ep, assume, rule, text in K:
+        argn = ep.split()[-1] if ep else ""
+        call = ("%s (src, 1, dest%s)" if order == "scd" else "%s (src, dest, 1%s)") % (fn, (", " + argn) if argn else "")
+        h = """#include "env_pre.h"
+#include "%(fname)s"
+#include "ghost.h"
+
+void h_unit (void)
+{	%(st)s src [1] ; %(dt)s dest [1] ; INPUT (%(st)s, nd) ;
+%(decl)s
+	src [0] = nd ;
+	__CPROVER_assume (%(assume)s) ;
+	%(call)s ;
+	__CPROVER_assert (%(rule)s, "%(text)s") ; /*@C02.element_rule_single*/
+	CANARY () ;
+}
+""" % dict(fname=fname, st=st, dt=dt, decl=("\tINPUT (%s, %s) ;" % (" ".join(ep.split()[:-1]), argn)) if ep else "", assume=assume, call=call, rule=rule, text=text)
+        U.append({"name": "%s.%s.elem" % (fname[:-2], fn), "props": ["C02"], "harness_text": h, "template": "units/gen_float.py", "entry": "h_unit", "dfcc": False,
+                  "function": "%s:%s" % (fname, fn), "backend": "cvc5", "cbmc_flags": ["--unwind", "2"], "drop_flags": ["--signed-overflow-check", "--slice-formula"],
+                  "self_replay": True, "inputs": ["nd"] + ([argn] if argn else []), "replay_link": "all", "replay_exclude": [fname],
+                  "timeout": 300, "kind": "proof(single element, every value of element and scale; structural FP)",
+                  "note": "that every iteration applies this element function: the loop body is the element statement (frame contracts of these kernels are assumed in the implementation units)"})
+    return U
+
+
+_units_impl = units
+
+
+def units():
+    return _units_impl() + _kernel_units()
